@@ -27,7 +27,7 @@ use verif_common::*;
 macro_rules! link_read {
     ($name:ident, $n:expr) => {
         #[kani::proof]
-        #[kani::unwind(12)]
+        #[kani::unwind(16)]
         fn $name() {
             const N: usize = $n;
             const T: usize = N + 2;
@@ -53,6 +53,7 @@ link_read!(c13_link_read_2, 2);
 link_read!(c13_link_read_3, 3);
 link_read!(c13_link_read_5, 5);
 link_read!(c13_link_read_8, 8);
+link_read!(c13_link_read_n12, 12);
 
 /// Truncated stream: fewer bytes than requested => Err, never a short Ok.
 #[kani::proof]
@@ -74,7 +75,7 @@ fn c13_link_read_truncated() {
 macro_rules! link_write_short {
     ($name:ident, $n:expr) => {
         #[kani::proof]
-        #[kani::unwind(12)]
+        #[kani::unwind(16)]
         #[kani::stub(std::io::Error::is_interrupted, never_interrupted)]
         fn $name() {
             const N: usize = $n;
@@ -103,6 +104,7 @@ link_write_short!(c14_h14b_short_write_1, 1);
 link_write_short!(c14_h14b_short_write_2, 2);
 link_write_short!(c14_h14b_short_write_4, 4);
 link_write_short!(c14_h14b_short_write_8, 8);
+link_write_short!(c14_h14b_short_write_n12, 12);
 
 /// C14 H14d: zero-then-progress: one write call (index ZERO_AT) accepts nothing,
 /// the others a solver-chosen non-empty prefix: Ok => every byte delivered.
